@@ -193,7 +193,7 @@ impl<VS: HSet> HProvider<VS> {
         let seed = if let Strat::Random(s) = strat { s } else { 0 };
         {
             // deep registries: every snapshot lists hundreds of packages; a runaway run must stay small
-            let budget = if reg.entries.len() > 100 { 40_000 } else { 10_000 };
+            let budget = if reg.entries.len() > 100 { 40_000 } else { 4_000 };
             HProvider { reg, dep_maps, strat, fault, log, calls: Cell::new(0), rng: RefCell::new(Rng::new(seed)), budget }
         }
     }
@@ -201,6 +201,7 @@ impl<VS: HSet> HProvider<VS> {
         let k = self.calls.get();
         self.calls.set(k + 1);
         if k > self.budget {
+            BUDGET_HITS.fetch_add(1, std::sync::atomic::Ordering::Relaxed);
             panic!("call budget exceeded");
         }
         if self.fault == Fault::Fail(k) {
@@ -337,6 +338,10 @@ pub struct Run<VS: HSet> {
     pub outcome: Outcome<VS>,
 }
 
+/// runs that exceeded the call budget so far (after a few dozen the generators stop producing solver
+/// cases: the violation is established, and every further looping run costs the whole budget)
+pub static BUDGET_HITS: std::sync::atomic::AtomicUsize = std::sync::atomic::AtomicUsize::new(0);
+
 /// the call of the real `resolve` in flight (start time, replayable request line): read by the watchdog
 pub static IN_FLIGHT: std::sync::Mutex<Option<(std::time::Instant, String)>> = std::sync::Mutex::new(None);
 
@@ -382,7 +387,14 @@ fn run_resolve_inner<VS: HSet>(reg: &Registry<VS>, root: &str, rv: u32, strat: &
     let log: Rc<RefCell<Vec<Ev>>> = Rc::new(RefCell::new(vec![]));
     let provider = HProvider::new(reg.clone(), strat.clone(), fault.clone(), log.clone());
     let log2 = log.clone();
+    // a run that loops (only a defective build does) would record gigabytes of snapshots: stop recording
+    // after 64 MB; such a run ends in the budget panic or the watchdog, never in a comparison of transcripts
+    let recorded = Cell::new(0usize);
     pubgrub::verif::set_observer(Some(Box::new(move |s: &str| {
+        if recorded.get() > 64_000_000 {
+            return;
+        }
+        recorded.set(recorded.get() + s.len());
         log2.borrow_mut().push(Ev::Snap(s.replace('\n', " ## ")));
     })));
     let res = std::panic::catch_unwind(std::panic::AssertUnwindSafe(|| resolve(&provider, root.to_string(), rv)));
